@@ -37,9 +37,14 @@ def no_save_after_refusal(ctx, chk, rid):
                    "next commit would record them and a later rollback would resurrect them)")
 
 
+_BYTES, _POS = "bytes", "pos"
+
+
 def run(ctx, chk):
     O, P = ctx.O, ctx.P
     import props.anchors as anchors
+    global _BYTES, _POS
+    _BYTES, _POS = anchors.cursor_fields(P)
     anchors.check(ctx, chk, ['reset_drops_changes', 'raw_save_rb', 'cmp_save_rb'])
     # ATOM instances
     c13.run(ctx, chk, only={c13.RAW_W + "rollback", c13.CMP_W + "rollback"}, prefix="ATOM16")
@@ -165,9 +170,9 @@ def run(ctx, chk):
         a_sites = O.sites(B, chkrem)
         inn = O.seen_before(B, a_sites)
         adv = [b for b in B.reachable() for st in B.blocks[b]["stmts"]
-               if st[0] == "assign" and any(isinstance(e, list) and e[0] == "f" and e[2] == "pos" for e in st[1]["p"])]
+               if st[0] == "assign" and any(isinstance(e, list) and e[0] == "f" and e[2] == _POS for e in st[1]["p"])]
         idx = [b for b, t in B.calls() if any(n.endswith("Index::index") or n.endswith("::get") for n in names(t))
-               and "bytes" in str(O.slice_back(B, t["args"][0])["fields"])]
+               and _BYTES in str(O.slice_back(B, t["args"][0])["fields"])]
         bad = [b for b in adv + idx if not inn[b]]
         chk.oblige("D16.7 ChangeCursor::%s: check_remaining precedes every access to `bytes` and every advance of `pos`"
                    % meth, bool(a_sites) and not bad, key="D16.7|ChangeCursor::%s|unchecked-window" % meth,
